@@ -48,11 +48,14 @@ type advCase struct {
 	// WriteErrAfter (when > 0) replaces WriteErrN: the first write of generation
 	// 1 that begins at or after this instant fails.
 	WriteErrAfter time.Duration
-	Seed         time.Duration
-	Tail         time.Duration // observation time after run_return
+	Seed          time.Duration
+	Tail          time.Duration // observation time after run_return
 	// StopHook places the stop request inside an operation: "fwd" = inside the
 	// first forwarding read, "write" = inside the first socket write, that begins
 	// at or after StopHookAfter; the request is made StopHookDelay later.
+	// ReportK1: report a loss with the K1 signature as the known finding (C07
+	// only); other properties' parallel passes merely count it.
+	ReportK1      bool
 	StopHook      string
 	StopHookAfter time.Duration
 	StopHookDelay time.Duration
@@ -516,6 +519,19 @@ func advC07(r *vlib.Run, c *advCase, res *advResult) {
 					continue
 				}
 			}
+			// K1: mdlayher/schedgroup v1.0.0 loses the wake-up of a task scheduled
+			// while its monitor goroutine is handling a timer.  In virtual time that
+			// can only happen when the solicitation is delivered in the same instant
+			// as another scheduler event; under real parallelism (-race pass) such a
+			// loss is the known dependency finding, not a new one.
+			if !vTiming && advCoincident(ev, rs.t, rs.gen) {
+				if c.ReportK1 {
+					r.Violation(c.ID, "k1-signature:solicitation-lost", fmt.Sprintf("solicitation from %s at %v, delivered in the same instant as another scheduler event, was never answered (schedgroup lost wake-up)", src, rs.t), det())
+				} else {
+					r.Count("k1_signature_losses_ignored", 1)
+				}
+				continue
+			}
 			r.Violation(c.ID, "solicitation-lost", fmt.Sprintf("valid solicitation from %s at %v was never answered although the interface kept running until %v", src, rs.t, f.end(rs.gen)), det())
 			return
 		}
@@ -540,6 +556,18 @@ func advC07(r *vlib.Run, c *advCase, res *advResult) {
 		}
 		r.Count("conservation_checks", 5)
 	}
+}
+
+// advCoincident reports whether another scheduler-relevant event (a worker's
+// transmission or another delivered message) carries the same timestamp.
+func advCoincident(ev []vfake.Event, t time.Duration, gen int) bool {
+	n := 0
+	for _, e := range ev {
+		if e.T == t && e.Gen == gen && (e.Kind == "write_begin" || e.Kind == "read_deliver") {
+			n++
+		}
+	}
+	return n >= 2
 }
 
 // advC08 is the termination oracle.
